@@ -650,12 +650,20 @@ where
         alt_key.addo = AdDo::Do;
         let opt_value = self.cache.get(&alt_key).await;
         if let Some(value) = opt_value {
-            let value = update_message(
+            // If the cached response cannot be rewritten (for example,
+            // because one of its records fails to parse) then it is of no
+            // use for this request. Treat that as a cache miss instead of
+            // failing the request: the expiry of the entry has not been
+            // checked at this point, so the error would be returned for
+            // as long as the entry stays in the cache.
+            let Ok(value) = update_message(
                 value,
                 &self.config,
                 |_hdr| true,
                 |msg| remove_dnssec(msg, key.addo.ad()),
-            )?;
+            ) else {
+                return Ok(None);
+            };
             self.cache_insert(key.clone(), value.clone()).await;
             return Ok(Some(value));
         }
